@@ -495,6 +495,13 @@ mod v_iface_sixlowpan {
             // 1-entry table: SCI = DCI = 0 are the identifiers that resolve
             f.cidb = 0;
         }
+        if (uses_ctx(s.src) || uses_ctx(s.dst) || s.src == Am::Unspec) && !is_nhc(&s) {
+            // Modelling artifact (measured): for these address modes CBMC cannot see that `SixlowpanIphcRepr::parse`
+            // succeeds, the parsed `next_header` stops being a constant, and the LOWPAN_NHC arm of the loop in
+            // `sixlowpan_to_ipv6` is unrolled on the upper-layer octets (0.5 M steps per iteration).  A concrete first
+            // upper-layer octet (ICMPv6 type 128; not an NHC dispatch) cuts that arm; the decompressor only copies it.
+            f.up[0] = 0x80;
+        }
         let r802 = ieee_of(&s, &f);
         let mut t = [0u8; TL];
         let lay = tmpl(&s, &f, &mut t);
@@ -534,7 +541,7 @@ mod v_iface_sixlowpan {
             assert!(out[k] == e[k], "prop:c20_decompressed_upper_layer_bytes");
         }
         kani::cover!(k == m - 1 && r.is_ok(), "last octet of the datagram compared");
-        kani::cover!(k == 23 && r.is_ok() && out[23] != 0, "source address compared");
+        kani::cover!(k == 39 && r.is_ok(), "destination address compared");
     }
 
     // ------------------------------------------------------------------ 1. compression equals the template
@@ -552,7 +559,9 @@ mod v_iface_sixlowpan {
                 Am::Full => kani::assume(!unspec && !ll_pfx && a[0] != 0xff),
                 Am::Ll64 => kani::assume(!short_form && !is_iid),
                 Am::Ll16 => kani::assume(!is_iid),
-                Am::LlElided | Am::Unspec | Am::Mc8 => {}
+                // an EUI-64 that happens to look like 0000:00ff:fe00:XXXX is sent in the 16-bit form (also decodable)
+                Am::LlElided => kani::assume(k == Ll::Short || !short_form),
+                Am::Unspec | Am::Mc8 => {}
                 Am::Mc32 => kani::assume(!(a[1] == 0x02 && a[13] == 0 && a[14] == 0)),
                 Am::Mc48 => kani::assume(!(a[11] == 0 && a[12] == 0)),
                 Am::McFull => kani::assume(!z2_10),
@@ -659,7 +668,7 @@ mod v_iface_sixlowpan {
         }
     }
 
-    fn compress_udp(s: Shape, via: Via) {
+    fn compress_udp(s: Shape, via: Via, stale_c_bit: bool) {
         let mut f = any_fields(&s);
         if via == Via::Whole {
             let (sp, dp) = rep_ports(s.up.p);
@@ -680,6 +689,10 @@ mod v_iface_sixlowpan {
         };
         let mut t = [0u8; TL];
         let lay = tmpl(&s, &f, &mut t);
+        if !stale_c_bit {
+            // the stale-C-bit defect has its own harness (lowpan_compress_udp_stale_checksum_bit)
+            kani::assume(stale[lay.nhc_at] & 0x04 == 0);
+        }
         check_sizes(&s, &pkt, &r802, &lay);
         let mut buf = stale;
         match via {
@@ -784,49 +797,7 @@ mod v_iface_sixlowpan {
         compare_with_template(&s, &lay, &buf, &t);
     }
 
-    // ------------------------------------------------------------------ UDP NHC port/length arithmetic for ALL ports
-    /// real `SixlowpanUdpNhcRepr::{header_len, emit}` against the RFC 6282 4.3.3 encoding, ports symbolic inside class p
-    fn nhc_emit_case(p: u8) {
-        let s = sh(2, LlElided, Ext, LlElided, Ext, nhc(p), 4);
-        let f = any_fields(&s);
-        assume_sender_picks(&s, &f);
-        let mut t = [0u8; TL];
-        let lay = tmpl(&s, &f, &mut t);
-        // NHC part of the template: t[2..lay.len]
-        let n = lay.len - 2;
-        let repr = SixlowpanUdpNhcRepr(UdpRepr { src_port: f.sport, dst_port: f.dport });
-        let hl = repr.header_len();
-        assert!(hl == lay.hdr - 2, "prop:c20_udp_nhc_header_len");
-        let stale: [u8; 16] = kani::any();
-        let mut buf = stale;
-        let data = [f.up[0], f.up[1], f.up[2], f.up[3]];
-        let src = Ipv6Address::from_octets(f.src);
-        let dst = Ipv6Address::from_octets(f.dst);
-        repr.emit(
-            &mut SixlowpanUdpNhcPacket::new_unchecked(&mut buf[..n]),
-            &src,
-            &dst,
-            4,
-            |b| b.copy_from_slice(&data),
-            &ChecksumCapabilities::ignored(),
-        );
-        crate::vdump!("ports {:04x} {:04x}\nGOT      {:02x?}\nTEMPLATE {:02x?}", f.sport, f.dport, &buf[..n], &t[2..lay.len]);
-        let k = any_lt(16);
-        kani::assume(k < n);
-        if k == 0 {
-            assert!(buf[0] & 0x04 == 0, "prop:c20_udp_nhc_checksum_bit_matches_layout");
-            assert!(buf[0] | 0x04 == t[2] | 0x04, "prop:c20_compressed_bytes_equal_template");
-        } else if k + 2 == lay.ck_at || k + 2 == lay.ck_at + 1 {
-            // tx checksumming off: value left to the device
-        } else if k + 2 < lay.ck_at {
-            assert!(buf[k] == t[k + 2], "prop:c20_compressed_udp_ports_equal_template");
-        } else {
-            assert!(buf[k] == t[k + 2], "prop:c20_compressed_bytes_equal_template");
-        }
-        kani::cover!(k == 1 && f.sport != f.dport, "first port octet compared");
-        kani::cover!(k == n - 1, "last payload octet compared");
-    }
-
+    // ------------------------------------------------------------------ UDP NHC checksum
     /// RFC 768 / RFC 8200 8.1 checksum of a UDP datagram over IPv6, written independently (32-bit accumulate, fold)
     fn ref_udp_checksum(src: &[u8; 16], dst: &[u8; 16], sport: u16, dport: u16, data: &[u8; 2]) -> u16 {
         let mut acc: u32 = 0;
@@ -1123,28 +1094,28 @@ mod v_iface_sixlowpan {
     const S_UDP_SHORT64: Shape = sh(0, Ll64, Short, Ll16, Short, nhc(0), 0);
     const S_ICMP_GE: Shape = sh(2, Full, Short, LlElided, Ext, ICMP, 1);
 
-    // @harness props=C20 cfg=KL tier=q to=900 mem=4 unwind=20 opts=nomem covers=2 funcs=InterfaceInner::compressed_packet_size;SixlowpanIphcRepr::buffer_len;SixlowpanIphcRepr::emit;SixlowpanUdpNhcRepr::header_len;SixlowpanUdpNhcRepr::emit bounds=shape_TF=11;_HLIM_64;_src/dst_fe80::IID_elided_from_extended_link_addresses;_UDP-NHC_both_ports_0xf0bX_(4+4_bits);_every_address,_link_address,_hop_limit,_payload_octet_and_the_stale_transmit_buffer_symbolic;_all_ports_of_the_class;_the_calls_ipv6_to_sixlowpan_makes_are_made_by_the_harness_(the_function_itself:_lowpan_compress_whole_*);_payload<=4_octets;_tx_checksumming_off
+    // @harness props=C20 cfg=KL tier=q to=900 mem=4 unwind=20 opts=nomem covers=2 funcs=InterfaceInner::compressed_packet_size;SixlowpanIphcRepr::buffer_len;SixlowpanIphcRepr::emit;SixlowpanUdpNhcRepr::header_len;SixlowpanUdpNhcRepr::emit bounds=shape_TF=11;_HLIM_64;_src/dst_fe80::IID_elided_from_extended_link_addresses;_UDP-NHC_both_ports_0xf0bX_(4+4_bits);_every_address,_link_address,_hop_limit,_payload_octet_and_the_stale_transmit_buffer_symbolic;_all_ports_of_the_class;_stale_NHC_octet_with_C=0_(C=1:_lowpan_compress_udp_stale_checksum_bit);_the_calls_ipv6_to_sixlowpan_makes_are_made_by_the_harness_(the_function_itself:_lowpan_compress_whole_*);_payload<=4_octets;_tx_checksumming_off
     #[kani::proof]
     pub(crate) fn lowpan_compress_udp_ports4() {
-        compress_udp(S_UDP4, Via::Parts);
+        compress_udp(S_UDP4, Via::Parts, false);
     }
 
-    // @harness props=C20 cfg=KL tier=q to=900 mem=4 unwind=20 opts=nomem covers=2 funcs=InterfaceInner::compressed_packet_size;SixlowpanIphcRepr::buffer_len;SixlowpanIphcRepr::emit;SixlowpanUdpNhcRepr::header_len;SixlowpanUdpNhcRepr::emit bounds=shape_TF=11;_HLIM_64;_src_elided_(extended_link_address);_dst_any_global_128_bits_in-line;_UDP-NHC_both_ports_in_full;_every_address,_link_address,_hop_limit,_payload_octet_and_the_stale_transmit_buffer_symbolic;_all_ports_of_the_class;_the_calls_ipv6_to_sixlowpan_makes_are_made_by_the_harness_(the_function_itself:_lowpan_compress_whole_*);_payload<=4_octets;_tx_checksumming_off
+    // @harness props=C20 cfg=KL tier=q to=900 mem=4 unwind=20 opts=nomem covers=2 funcs=InterfaceInner::compressed_packet_size;SixlowpanIphcRepr::buffer_len;SixlowpanIphcRepr::emit;SixlowpanUdpNhcRepr::header_len;SixlowpanUdpNhcRepr::emit bounds=shape_TF=11;_HLIM_64;_src_elided_(extended_link_address);_dst_any_global_128_bits_in-line;_UDP-NHC_both_ports_in_full;_every_address,_link_address,_hop_limit,_payload_octet_and_the_stale_transmit_buffer_symbolic;_all_ports_of_the_class;_stale_NHC_octet_with_C=0_(C=1:_lowpan_compress_udp_stale_checksum_bit);_the_calls_ipv6_to_sixlowpan_makes_are_made_by_the_harness_(the_function_itself:_lowpan_compress_whole_*);_payload<=4_octets;_tx_checksumming_off
     #[kani::proof]
     pub(crate) fn lowpan_compress_udp_ports0() {
-        compress_udp(S_UDP0, Via::Parts);
+        compress_udp(S_UDP0, Via::Parts, false);
     }
 
-    // @harness props=C20 cfg=KL tier=q to=900 mem=4 unwind=20 opts=nomem covers=2 funcs=InterfaceInner::compressed_packet_size;SixlowpanIphcRepr::buffer_len;SixlowpanIphcRepr::emit;SixlowpanUdpNhcRepr::header_len;SixlowpanUdpNhcRepr::emit bounds=shape_TF=11;_hop_limit_in-line;_src/dst_any_global_128_bits_in-line;_UDP-NHC_dst_port_0xf0XX;_every_address,_link_address,_hop_limit,_payload_octet_and_the_stale_transmit_buffer_symbolic;_all_ports_of_the_class;_the_calls_ipv6_to_sixlowpan_makes_are_made_by_the_harness_(the_function_itself:_lowpan_compress_whole_*);_payload<=4_octets;_tx_checksumming_off
+    // @harness props=C20 cfg=KL tier=q to=900 mem=4 unwind=20 opts=nomem covers=2 funcs=InterfaceInner::compressed_packet_size;SixlowpanIphcRepr::buffer_len;SixlowpanIphcRepr::emit;SixlowpanUdpNhcRepr::header_len;SixlowpanUdpNhcRepr::emit bounds=shape_TF=11;_hop_limit_in-line;_src/dst_any_global_128_bits_in-line;_UDP-NHC_dst_port_0xf0XX;_every_address,_link_address,_hop_limit,_payload_octet_and_the_stale_transmit_buffer_symbolic;_all_ports_of_the_class;_stale_NHC_octet_with_C=0_(C=1:_lowpan_compress_udp_stale_checksum_bit);_the_calls_ipv6_to_sixlowpan_makes_are_made_by_the_harness_(the_function_itself:_lowpan_compress_whole_*);_payload<=4_octets;_tx_checksumming_off
     #[kani::proof]
     pub(crate) fn lowpan_compress_udp_ports1() {
-        compress_udp(S_UDP1, Via::Parts);
+        compress_udp(S_UDP1, Via::Parts, false);
     }
 
-    // @harness props=C20 cfg=KL tier=q to=900 mem=4 unwind=20 opts=nomem covers=2 funcs=InterfaceInner::compressed_packet_size;SixlowpanIphcRepr::buffer_len;SixlowpanIphcRepr::emit;SixlowpanUdpNhcRepr::header_len;SixlowpanUdpNhcRepr::emit bounds=shape_TF=11;_HLIM_255;_src/dst_fe80::/64_+_64_bits_in-line;_UDP-NHC_src_port_0xf0XX;_every_address,_link_address,_hop_limit,_payload_octet_and_the_stale_transmit_buffer_symbolic;_all_ports_of_the_class;_the_calls_ipv6_to_sixlowpan_makes_are_made_by_the_harness_(the_function_itself:_lowpan_compress_whole_*);_payload<=4_octets;_tx_checksumming_off
+    // @harness props=C20 cfg=KL tier=q to=900 mem=4 unwind=20 opts=nomem covers=2 funcs=InterfaceInner::compressed_packet_size;SixlowpanIphcRepr::buffer_len;SixlowpanIphcRepr::emit;SixlowpanUdpNhcRepr::header_len;SixlowpanUdpNhcRepr::emit bounds=shape_TF=11;_HLIM_255;_src/dst_fe80::/64_+_64_bits_in-line;_UDP-NHC_src_port_0xf0XX;_every_address,_link_address,_hop_limit,_payload_octet_and_the_stale_transmit_buffer_symbolic;_all_ports_of_the_class;_stale_NHC_octet_with_C=0_(C=1:_lowpan_compress_udp_stale_checksum_bit);_the_calls_ipv6_to_sixlowpan_makes_are_made_by_the_harness_(the_function_itself:_lowpan_compress_whole_*);_payload<=4_octets;_tx_checksumming_off
     #[kani::proof]
     pub(crate) fn lowpan_compress_udp_ports2() {
-        compress_udp(S_UDP2, Via::Parts);
+        compress_udp(S_UDP2, Via::Parts, false);
     }
 
     // @harness props=C20 cfg=KL tier=q to=900 mem=4 unwind=20 opts=nomem covers=2 funcs=InterfaceInner::compressed_packet_size;SixlowpanIphcRepr::buffer_len;SixlowpanIphcRepr::emit;Icmpv6Repr::emit bounds=shape_TF=11;_HLIM_1;_src_elided_from_short_link_address;_dst_fe80::ff:fe00:XXXX_16_bits_in-line;_ICMPv6_echo;_every_address,_link_address,_hop_limit,_payload_octet_and_the_stale_transmit_buffer_symbolic;_the_calls_ipv6_to_sixlowpan_makes_are_made_by_the_harness_(the_function_itself:_lowpan_compress_whole_*);_payload<=4_octets;_tx_checksumming_off
@@ -1171,10 +1142,10 @@ mod v_iface_sixlowpan {
         compress_icmp(S_ICMP_MC48, Via::Parts);
     }
 
-    // @harness props=C20 cfg=KL tier=q to=900 mem=4 unwind=20 opts=nomem covers=2 funcs=InterfaceInner::compressed_packet_size;SixlowpanIphcRepr::buffer_len;SixlowpanIphcRepr::emit;SixlowpanUdpNhcRepr::header_len;SixlowpanUdpNhcRepr::emit bounds=shape_TF=11;_HLIM_64;_src_elided;_dst_any_other_multicast_address_128_bits_in-line_(M=1_DAM=00);_UDP-NHC_ports_in_full;_every_address,_link_address,_hop_limit,_payload_octet_and_the_stale_transmit_buffer_symbolic;_all_ports_of_the_class;_the_calls_ipv6_to_sixlowpan_makes_are_made_by_the_harness_(the_function_itself:_lowpan_compress_whole_*);_payload<=4_octets;_tx_checksumming_off
+    // @harness props=C20 cfg=KL tier=q to=900 mem=4 unwind=20 opts=nomem covers=2 funcs=InterfaceInner::compressed_packet_size;SixlowpanIphcRepr::buffer_len;SixlowpanIphcRepr::emit;SixlowpanUdpNhcRepr::header_len;SixlowpanUdpNhcRepr::emit bounds=shape_TF=11;_HLIM_64;_src_elided;_dst_any_other_multicast_address_128_bits_in-line_(M=1_DAM=00);_UDP-NHC_ports_in_full;_every_address,_link_address,_hop_limit,_payload_octet_and_the_stale_transmit_buffer_symbolic;_all_ports_of_the_class;_stale_NHC_octet_with_C=0_(C=1:_lowpan_compress_udp_stale_checksum_bit);_the_calls_ipv6_to_sixlowpan_makes_are_made_by_the_harness_(the_function_itself:_lowpan_compress_whole_*);_payload<=4_octets;_tx_checksumming_off
     #[kani::proof]
     pub(crate) fn lowpan_compress_udp_mcfull() {
-        compress_udp(S_UDP_MCFULL, Via::Parts);
+        compress_udp(S_UDP_MCFULL, Via::Parts, false);
     }
 
     // @harness props=C20 cfg=KL tier=q to=900 mem=4 unwind=20 opts=nomem covers=2 funcs=InterfaceInner::compressed_packet_size;SixlowpanIphcRepr::buffer_len;SixlowpanIphcRepr::emit;TcpRepr::emit bounds=shape_TF=11;_HLIM_64;_src/dst_any_global_in-line;_TCP_header_without_options_+_4_octets;_every_address,_link_address,_hop_limit,_payload_octet_and_the_stale_transmit_buffer_symbolic;_TCP_header_fields_concrete;_the_calls_ipv6_to_sixlowpan_makes_are_made_by_the_harness_(the_function_itself:_lowpan_compress_whole_*);_payload<=4_octets;_tx_checksumming_off
@@ -1189,10 +1160,10 @@ mod v_iface_sixlowpan {
         compress_tcp(S_TCP_LL, Via::Parts);
     }
 
-    // @harness props=C20 cfg=KL tier=t to=900 mem=4 unwind=20 opts=nomem covers=2 funcs=InterfaceInner::compressed_packet_size;SixlowpanIphcRepr::buffer_len;SixlowpanIphcRepr::emit;SixlowpanUdpNhcRepr::header_len;SixlowpanUdpNhcRepr::emit bounds=shape_TF=11;_hop_limit_in-line;_src_fe80::/64+64_bits;_dst_16_bits_in-line;_short_link_addresses;_UDP_without_data;_every_address,_link_address,_hop_limit,_payload_octet_and_the_stale_transmit_buffer_symbolic;_all_ports_of_the_class;_the_calls_ipv6_to_sixlowpan_makes_are_made_by_the_harness_(the_function_itself:_lowpan_compress_whole_*);_payload<=4_octets;_tx_checksumming_off
+    // @harness props=C20 cfg=KL tier=t to=900 mem=4 unwind=20 opts=nomem covers=2 funcs=InterfaceInner::compressed_packet_size;SixlowpanIphcRepr::buffer_len;SixlowpanIphcRepr::emit;SixlowpanUdpNhcRepr::header_len;SixlowpanUdpNhcRepr::emit bounds=shape_TF=11;_hop_limit_in-line;_src_fe80::/64+64_bits;_dst_16_bits_in-line;_short_link_addresses;_UDP_without_data;_every_address,_link_address,_hop_limit,_payload_octet_and_the_stale_transmit_buffer_symbolic;_all_ports_of_the_class;_stale_NHC_octet_with_C=0_(C=1:_lowpan_compress_udp_stale_checksum_bit);_the_calls_ipv6_to_sixlowpan_makes_are_made_by_the_harness_(the_function_itself:_lowpan_compress_whole_*);_payload<=4_octets;_tx_checksumming_off
     #[kani::proof]
     pub(crate) fn lowpan_compress_udp_short_ll64() {
-        compress_udp(S_UDP_SHORT64, Via::Parts);
+        compress_udp(S_UDP_SHORT64, Via::Parts, false);
     }
 
     // @harness props=C20 cfg=KL tier=t to=900 mem=4 unwind=20 opts=nomem covers=2 funcs=InterfaceInner::compressed_packet_size;SixlowpanIphcRepr::buffer_len;SixlowpanIphcRepr::emit;Icmpv6Repr::emit bounds=shape_TF=11;_HLIM_64;_src_global_in-line;_dst_elided_from_extended_link_address;_ICMPv6_echo;_every_address,_link_address,_hop_limit,_payload_octet_and_the_stale_transmit_buffer_symbolic;_the_calls_ipv6_to_sixlowpan_makes_are_made_by_the_harness_(the_function_itself:_lowpan_compress_whole_*);_payload<=4_octets;_tx_checksumming_off
@@ -1352,11 +1323,17 @@ mod v_iface_sixlowpan {
         decompress_case(Shape { tf: 3, hlim: 3, cid: false, src: Ll16, dst: Mc48, sll: Ext, dll: Short, up: TCP, plen: 0 });
     }
 
+    // @harness props=C20 cfg=KL tier=q to=900 mem=4 unwind=20 opts=nomem covers=2 funcs=InterfaceInner::compressed_packet_size;SixlowpanIphcRepr::emit;SixlowpanUdpNhcRepr::header_len;SixlowpanUdpNhcRepr::emit;SixlowpanUdpNhcPacket::set_dispatch_field bounds=shape_of_lowpan_compress_udp_ports0;_tx_checksumming_off_(ChecksumCapabilities_with_udp=None/Rx);_transmit_buffer_with_ARBITRARY_previous_contents_(device_buffers_are_reused):_the_C_bit_of_the_NHC_octet_must_still_say_that_the_2_checksum_octets_counted_by_header_len_are_present
+    #[kani::proof]
+    pub(crate) fn lowpan_compress_udp_stale_checksum_bit() {
+        compress_udp(S_UDP0, Via::Parts, true);
+    }
+
     // ---- the real `ipv6_to_sixlowpan` (see NOTE above `Via`): one shape per payload kind
     // @harness props=C20 cfg=KL tier=t to=3600 mem=16 unwind=20 opts=nomem covers=2 funcs=InterfaceInner::compressed_packet_size;InterfaceInner::ipv6_to_sixlowpan bounds=shape_of_lowpan_compress_udp_ports4;_ports_0xf0b3/0xf0b9;_addresses,_payload_and_stale_buffer_symbolic
     #[kani::proof]
     pub(crate) fn lowpan_compress_whole_udp() {
-        compress_udp(S_UDP4, Via::Whole);
+        compress_udp(S_UDP4, Via::Whole, false);
     }
 
     // @harness props=C20 cfg=KL tier=t to=3600 mem=16 unwind=20 opts=nomem covers=2 funcs=InterfaceInner::compressed_packet_size;InterfaceInner::ipv6_to_sixlowpan bounds=shape_of_lowpan_compress_icmp_short;_echo_ident/seq_concrete;_addresses,_data_and_stale_buffer_symbolic
@@ -1369,30 +1346,6 @@ mod v_iface_sixlowpan {
     #[kani::proof]
     pub(crate) fn lowpan_compress_whole_tcp() {
         compress_tcp(S_TCP, Via::Whole);
-    }
-
-    // @harness props=C20 cfg=KL tier=q to=600 mem=4 unwind=20 opts=nomem covers=2 funcs=SixlowpanUdpNhcRepr::header_len;SixlowpanUdpNhcRepr::emit;SixlowpanUdpNhcPacket::set_ports bounds=every_port_pair_of_the_class_(both_ports_outside_0xf0XX);_4_payload_octets;_stale_buffer_arbitrary;_tx_checksumming_off
-    #[kani::proof]
-    pub(crate) fn lowpan_nhc_udp_emit_ports0() {
-        nhc_emit_case(0);
-    }
-
-    // @harness props=C20 cfg=KL tier=q to=600 mem=4 unwind=20 opts=nomem covers=2 funcs=SixlowpanUdpNhcRepr::header_len;SixlowpanUdpNhcRepr::emit;SixlowpanUdpNhcPacket::set_ports bounds=every_port_pair_of_the_class_(dst_port_0xf0XX,_src_not);_4_payload_octets;_stale_buffer_arbitrary;_tx_checksumming_off
-    #[kani::proof]
-    pub(crate) fn lowpan_nhc_udp_emit_ports1() {
-        nhc_emit_case(1);
-    }
-
-    // @harness props=C20 cfg=KL tier=q to=600 mem=4 unwind=20 opts=nomem covers=2 funcs=SixlowpanUdpNhcRepr::header_len;SixlowpanUdpNhcRepr::emit;SixlowpanUdpNhcPacket::set_ports bounds=every_port_pair_of_the_class_(src_port_0xf0XX,_not_both_0xf0bX);_4_payload_octets;_stale_buffer_arbitrary;_tx_checksumming_off
-    #[kani::proof]
-    pub(crate) fn lowpan_nhc_udp_emit_ports2() {
-        nhc_emit_case(2);
-    }
-
-    // @harness props=C20 cfg=KL tier=q to=600 mem=4 unwind=20 opts=nomem covers=2 funcs=SixlowpanUdpNhcRepr::header_len;SixlowpanUdpNhcRepr::emit;SixlowpanUdpNhcPacket::set_ports bounds=every_port_pair_of_the_class_(both_ports_0xf0bX);_4_payload_octets;_stale_buffer_arbitrary;_tx_checksumming_off
-    #[kani::proof]
-    pub(crate) fn lowpan_nhc_udp_emit_ports3() {
-        nhc_emit_case(3);
     }
 
     // @harness props=C20 cfg=KL tier=t to=1800 mem=8 unwind=20 opts=nomem covers=1 funcs=SixlowpanUdpNhcRepr::emit;SixlowpanUdpNhcPacket::set_checksum;checksum::pseudo_header_v6;checksum::data bounds=tx_checksumming_ON;_concrete_addresses_fe80::1->fe80::2;_ports_symbolic_(both_outside_0xf0XX);_2_symbolic_payload_octets;_reference_=_RFC_768/8200_sum_written_in_the_harness
